@@ -247,6 +247,64 @@ def s5b(led, rid, ctx):
     led.floor(rid, "routing rows", rows, 16)
 
 
+def s5c(led, rid, ctx):
+    """a watcher registration is skipped only when the identical (propagator, local id) pair is
+    already in the list"""
+    lib = ctx.lib
+    n = 0
+    for name in ("watch_all", "watch_all_backtrack"):
+        f = lib.method("Watchers", name)
+        R = resolver(f)
+        for c in f.calls_named("push"):
+            arg = peel(R.operand(c.args[1]), calls=None) if len(c.args) > 1 else None
+            if arg is None or "propagator_var" not in arg.fields():
+                continue
+            n += 1
+            bad = None
+            for fa in guards_of(f, c.bb):
+                if fa.kind != "bool":
+                    continue
+                a = peel(fa.atom, calls=None)
+                while a.k == "unop" and a.a == "Not":
+                    a = peel(a.b, calls=None)
+                mentions = "propagator_var" in a.fields() or any(
+                    "propagator_var" in cap.fields() for x in a.walk() if x.k == "closure" for cap in x.b)
+                if not mentions:
+                    continue
+                if a.k == "call" and a.a.name == "contains":
+                    needle = peel(a.b[-1], calls=None)
+                    flds = [e.get("name") for e in (needle.b or []) if "field" in e] if needle.k == "proj" else []
+                    if flds and flds[-1] == "propagator_var":
+                        continue
+                    bad = "tests `contains(%s)`" % show(needle)[:80]
+                else:
+                    # a hand-written search: both components must be compared
+                    compared = set()
+                    for x in a.walk():
+                        if x.k == "closure":
+                            g = lib.fns.get(x.a)
+                            if g is None:
+                                continue
+                            Rg = resolver(g)
+                            for c2 in g.calls:
+                                if c2.name in ("eq", "ne"):
+                                    for ar in c2.args:
+                                        fl = peel(Rg.operand(ar), calls=None).fields()
+                                        compared |= {q for q in fl if q in ("propagator", "variable")}
+                                        if fl and list(fl)[-1:] == ["propagator_var"] or \
+                                                (not ({"propagator", "variable"} & set(fl)) and "propagator_var" in fl):
+                                            compared |= {"propagator", "variable"}
+                    if compared >= {"propagator", "variable"}:
+                        continue
+                    bad = "compares only %s of the registration" % (sorted(compared) or "part")
+            led.check(bad is None, rid, "%s:skip-only-identical" % name, c.span,
+                      "skipped only if the same (propagator, local id) is present",
+                      "Watchers::%s skips a registration when it %s: the second occurrence of a variable "
+                      "in one constraint (another local id of the same propagator) is never notified, and "
+                      "the propagator works with stale bounds for it" % (name, bad))
+    led.floor(rid, "watcher registrations", n, 2)
+
+
 def s_level(led, rid, ctx):
     res = C10.explore(ctx.lib)
     it, apis, B, trans, guards = res
@@ -296,3 +354,4 @@ def _u5b(led, rid, ctx):
     from . import watchrules
     run_rule(led, "S13", "WAKE: each watcher loop of the nogood propagator looks at exactly the watchers whose predicate became true (decided on all old/new domain pairs of a 5-value universe)", watchrules.wake, ctx)
     run_rule(led, "S14", "READD: loops that copy nogood watchers back run to the number of watchers", watchrules.readd, ctx)
+    run_rule(led, "S5c", "a watcher registration is skipped only for an identical (propagator, local id) pair", s5c, ctx)
